@@ -26,7 +26,8 @@ package c10
 //   Round3P2P.PairwiseContribution              BOUND  Round4 of the recipient: ck.Open(commitment of Round2P2P,
 //   Round3P2P.PairwiseContributionWitness       BOUND  contribution, witness); error tagged with the sender.
 //
-// All leaves are 32-byte strings; an all-zero value is additionally refused by Validate (tagged
+// All leaves are 32-byte random strings (no nested encodings: cbormut.OpenNested is NOT used - a
+// random commitment can look like a CBOR tag); an all-zero value is additionally refused by Validate (tagged
 // with the sender by network.ValidateIncomingMessages), which is a rejection as well.
 //
 // Oracle. (S) for every leaf: no party panics, the run terminates, every identity an honest
@@ -119,7 +120,6 @@ func checkTable(t *rapid.T, log []*netsim.Msg) {
 		if err != nil {
 			t.Fatalf("harness: parsing %q: %v", m.CID, err)
 		}
-		root.OpenNested()
 		for _, c := range cbormut.Classes(root) {
 			seen[fmt.Sprintf("%s|%v|%s", m.Round(), m.IsBroadcast(), c)] = true
 		}
@@ -186,7 +186,6 @@ func TestSetupFaults(t *testing.T) {
 		if err != nil {
 			t.Fatalf("harness: parsing %x: %v", orig, err)
 		}
-		root.OpenNested()
 
 		var donors []*cbormut.Node
 		cbOp := op
@@ -221,7 +220,6 @@ func TestSetupFaults(t *testing.T) {
 			if err != nil {
 				t.Fatalf("harness: parsing donor %x: %v", donorBody, err)
 			}
-			dn.OpenNested()
 			donors = []*cbormut.Node{dn}
 		}
 		mut, ok := cbormut.Mutate(t, root, donors, []string{cbOp}, spec.leaf)
@@ -241,27 +239,52 @@ func TestSetupFaults(t *testing.T) {
 		what += fmt.Sprintf(" %s [%s]: %x -> %x", opLabel, mut, orig, altered)
 
 		// the faulty run
-		var hits, irreproducible atomic.Int32
-		icpt := func(m *netsim.Msg) []*netsim.Msg {
-			if !isPayload(m) || m.From != d || m.Round() != spec.round || m.IsBroadcast() != spec.bcast || (!spec.bcast && m.To != r) {
-				return []*netsim.Msg{m}
+		runFault := func(opts netsim.Options) map[ID]*netsim.Result[*session.Context] {
+			var hits, irreproducible atomic.Int32
+			icpt := func(m *netsim.Msg) []*netsim.Msg {
+				if !isPayload(m) || m.From != d || m.Round() != spec.round || m.IsBroadcast() != spec.bcast || (!spec.bcast && m.To != r) {
+					return []*netsim.Msg{m}
+				}
+				if !bytes.Equal(m.Body, orig) {
+					irreproducible.Add(1)
+				}
+				c := m.Clone()
+				c.Body = append([]byte(nil), altered...)
+				hits.Add(1)
+				return []*netsim.Msg{c}
 			}
-			if !bytes.Equal(m.Body, orig) {
-				irreproducible.Add(1)
+			res, _ := runNet(t, ids, prngOf(seeds), icpt, opts) // fails on a panic of any party / on a hang
+			wantHits := int32(1)
+			if spec.bcast {
+				wantHits = int32(n - 1)
 			}
-			c := m.Clone()
-			c.Body = append([]byte(nil), altered...)
-			hits.Add(1)
-			return []*netsim.Msg{c}
+			if irreproducible.Load() != 0 || hits.Load() != wantHits {
+				t.Fatalf("harness: the run did not reproduce the pilot (%d altered copies, want %d; %d differed): %s",
+					hits.Load(), wantHits, irreproducible.Load(), what)
+			}
+			return res
 		}
-		res, _ := runNet(t, ids, prngOf(seeds), icpt) // fails on a panic of any party / on a hang
-		wantHits := int32(1)
-		if spec.bcast {
-			wantHits = int32(n - 1)
+		// verdictOpen: the party whose verdict (D) is about was cancelled by the harness. With one
+		// altered message this is either a genuine hang or a late party on a busy machine: the
+		// (deterministic) run is repeated once with a ten times longer idle bound before judging.
+		verdictOpen := func(res map[ID]*netsim.Result[*session.Context]) bool {
+			if !spec.bound {
+				return false
+			}
+			if !spec.bcast {
+				return res[r].Cancelled
+			}
+			for _, id := range others {
+				if !res[id].Cancelled {
+					return false
+				}
+			}
+			return true
 		}
-		if irreproducible.Load() != 0 || hits.Load() != wantHits {
-			t.Fatalf("harness: the run did not reproduce the pilot (%d altered copies, want %d; %d differed): %s",
-				hits.Load(), wantHits, irreproducible.Load(), what)
+		res := runFault(netOptsFault)
+		if verdictOpen(res) {
+			vlib.Class(test, "retried-with-long-idle")
+			res = runFault(netOptsRetry)
 		}
 
 		// (S)
